@@ -248,7 +248,7 @@ theorem interval_count (p : Nat → Bool) (s e : Nat) : ∀ (n : Nat),
       simp only [List.filter_cons, hp, if_true, List.filter_nil, List.length_cons, List.length_nil]
       omega
     · have hne : ¬ (s ≤ n ∧ n < e) := fun hc => hp (hn.mp hc)
-      simp only [List.filter_cons, hp, List.filter_nil, List.length_nil]
+      simp only [List.filter_cons, hp, List.filter_nil]
       simp only [Bool.false_eq_true, if_false, List.length_nil]
       omega
 
@@ -345,9 +345,6 @@ theorem count_occurrences (T : List Nat) {l : List (List Nat)} (hperm : l.Perm (
     rw [List.countP_map]; rfl
   rw [h1, h2]
   exact hperm.countP_eq _
-
-/-- the text position of the `i`-th smallest suffix of a text of length `n` (`sa[i]`) -/
-def saOf (l : List (List Nat)) (n i : Nat) : Nat := n - (str l i).length
 
 /-- **C19** the step behind the sampled suffix array: following ψ moves one position to the right
     in the text, so `sa[i] = sa[ψᵏ(i)] - k` and a sample met after `k` steps gives `sa[i]` -/
